@@ -391,7 +391,7 @@ def run(ctx):
         "history_classes": dict(flags),
         "history_length_histogram": {str(k): v for k, v in sorted(lens.items())},
         "samples": [{"mix": h["mix"], "cmds": h["cmds"][:4], "results": h["results"][:4]} for h in hs[6:8]],
-        "stage": "A proved (virtual IP uniqueness in full; usage, kind-service-names and advertised virtual IPs refuted + proved under the exact excluding hypotheses); B (gateway-services, mesh-topology) modelled, compared with the implementation on every run and refuted by witnesses, not proved",
+        "stage": "A proved (virtual IP uniqueness and advertised virtual IPs in full since /repo 8e1bd1c; usage and kind-service-names refuted + proved under the exact excluding hypotheses); B (gateway-services, mesh-topology) modelled, compared with the implementation on every run, refuted by witnesses; for mesh-topology the reference-keeping property repaired by /repo acb191c is proved for updateMeshTopology",
         "exhaustive": False,
     })
     return ctx.finish(cov, assumptions)
